@@ -10,7 +10,7 @@ from .c07 import base_of
 
 LEVEL = 'other'
 EXPLANATION = (
-    "Static analysis (table agreement). (R1) the declared relation: every extension_of name resolves, the relation is acyclic, and the documented chains (b < Kb < Tb < S4b < S5b, K < D < T) are declared. (R2) for every declared pair (weaker L', stronger L) the sub-valuation condition on the extracted semantics: V_L within V_L', every operator table of L is the restriction of L's counterpart, D_L = D_L' restricted, generalisers agree on P(V_L), frame clauses of L include those of L'; if it holds, every L-countermodel is an L'-countermodel (proved at the semantic level); if not, a propositional witness (<= 2 letters, depth <= 2, thorough: 3) valid in L' and invalid in L by the tables is searched -- a witness is a violation, no witness is reported as undecided, not as an alarm. (R3) prover-level transfer needs the weaker logic's rules sound and the stronger logic's rules invertible (C04 obligations of the logics in a pair). (R4) limit guards folded below / at / above the limit: a rule stops offering targets only where a quit flag is put on the branch.")
+    "Static analysis (table agreement). (R1) the declared relation: every extension_of name resolves, the relation is acyclic, and the documented chains (b < Kb < Tb < S4b < S5b, K < D < T) are declared. (R2) for every declared pair (weaker L', stronger L) the sub-valuation condition on the extracted semantics: V_L within V_L', every operator table of L is the restriction of L's counterpart, D_L = D_L' restricted, generalisers agree on P(V_L), frame clauses of L include those of L'; if it holds, every L-countermodel is an L'-countermodel (proved at the semantic level); if not, a propositional witness (<= 2 letters, depth <= 2, thorough: 3) valid in L' and invalid in L by the tables is searched -- a witness is a violation, no witness is reported as undecided, not as an alarm. (R3) prover-level transfer needs the weaker logic's rules sound and the stronger logic's rules invertible (C04 obligations of the logics in a pair). (R4) limit guards folded below / at / above the limit: a rule stops offering targets only where a quit flag is put on the branch. (R5) no starvation behind the fairness gate (C02.R8).")
 TRUSTED = ['CPython ast', 'sa.tables / sa.schema extractors']
 ASSUMPTIONS = ['first-order/modal arguments beyond the table semantics are not enumerated']
 
